@@ -89,7 +89,7 @@ func ruleC04(c *Check) {
 				// an answer produced inside the transaction (module service): the same malformed-output predicate over that answer
 				okm := false
 				for _, f := range g {
-					if f.Neg && f.T.Op == "ok" && f.T.A[0].Op == "types.ValidateResponseOutput" && len(f.T.A[0].A) == 1 {
+					if f.Neg && f.T.Op == "ok" && f.T.A[0].Op == c.typesName("ValidateResponseOutput") && len(f.T.A[0].A) == 1 {
 						if _, ne := hasFact(g, "(nonempty "+f.T.A[0].A[0].String()+")", false); ne {
 							okm = true
 						}
@@ -100,7 +100,7 @@ func ruleC04(c *Check) {
 			}
 			out := en.Field("Output")
 			_, a := hasFact(g, "(nonempty "+out+")", false)
-			_, b := hasFact(g, "(ok (types.ValidateResponseOutput "+out+"))", true)
+			_, b := hasFact(g, "(ok ("+c.typesName("ValidateResponseOutput")+" "+out+"))", true)
 			c.req(a && b, "C04.1", effConstruct(en.Msg, e), e.Pos, "dominated by len(output)>0 ∧ ValidateResponseOutput(output)≠nil over the message's output")
 			c.slashTarget("C04.3", en.Msg, e, fmt.Sprintf("(res 0 (%s %s))", gRequest.Name, en.Field("RequestId")), gBinding)
 		}
@@ -127,7 +127,7 @@ func ruleC04(c *Check) {
 	}
 	c.req(nBurn >= 2, "C04.1", "slash-sites", token.NoPos, fmt.Sprintf("%d entry-level slash variants (respond, end-block)", nBurn))
 	c.expiryScanGuard("C04.1")
-	c.schemaPredicate("C04.1", "types.ValidateResponseOutput", "types.OutputSchema")
+	c.schemaPredicate("C04.1", c.typesName("ValidateResponseOutput"), "types.OutputSchema")
 	c.paramGettersExact("C04.3", "KeySlashFraction", "KeyBaseDenom", "KeyMinDepositMultiple", "KeyMinDeposit")
 	// the expiry scan is skipped for a batch marked COMPLETED: that mark may only be written when no request of the batch is pending
 	c.contextFieldRules("C04.7", map[string]bool{"batchstate": true, "state": true})
@@ -186,7 +186,7 @@ func ruleC04(c *Check) {
 				trig[k] = v
 			}
 		}
-		shape, okShape := triggerShape(trig)
+		shape, okShape := c.triggerShape(trig)
 		c.req(okShape, "C04.1", unitConstruct(f, "trigger"), f.Body.Pos(), "slash trigger in this unit: "+strings.Join(trig.Sorted(), " ∧ ")+" — "+shape)
 		// every non-slashing committed path negates a trigger fact
 		for _, pa := range without {
@@ -233,7 +233,7 @@ func ruleC04(c *Check) {
 	c.availabilityPairs("C04.5")
 }
 
-func triggerShape(trig FactSet) (string, bool) {
+func (c *Check) triggerShape(trig FactSet) (string, bool) {
 	keys := trig.Sorted()
 	if len(keys) == 1 {
 		f := trig[keys[0]]
@@ -248,7 +248,7 @@ func triggerShape(trig FactSet) (string, bool) {
 			if !f.Neg && f.T.Op == "nonempty" {
 				x1 = f.T.A[0].String()
 			}
-			if f.Neg && f.T.Op == "ok" && f.T.A[0].Op == "types.ValidateResponseOutput" && len(f.T.A[0].A) == 1 {
+			if f.Neg && f.T.Op == "ok" && f.T.A[0].Op == c.typesName("ValidateResponseOutput") && len(f.T.A[0].A) == 1 {
 				x2 = f.T.A[0].A[0].String()
 			}
 		}
